@@ -15,13 +15,14 @@ type SQLOpts struct {
 	OnExclude func(string)
 	OnClass   func(string)
 
-	Directives bool // gomacro:SQL / gomacro:QUERY comment directives (C16)
-	JSONHeavy  bool // at least one jsonb column (C04)
-	NoJSON     bool
-	Executable bool // restrict to shapes the executed CRUD property can drive (C05)
-	SelfFK     bool // tables referencing themselves through a gomacro-sql-foreign tag (not for the executed CRUD property)
-	ForeignIDs bool // foreign keys whose ID type is declared by another package of the module, which ships its own <T>ArrayToPQ helpers (C01 only: the target table is not created by the analysed file)
-	MaxTables  int
+	Directives        bool // gomacro:SQL / gomacro:QUERY comment directives (C16)
+	JSONHeavy         bool // at least one jsonb column (C04)
+	NoJSON            bool
+	Executable        bool // restrict to shapes the executed CRUD property can drive (C05)
+	ForeignFileTables bool // foreign keys (and REFERENCES directives) to a table struct declared in the sibling file (not executed: that table is not created)
+	SelfFK            bool // tables referencing themselves through a gomacro-sql-foreign tag (not for the executed CRUD property)
+	ForeignIDs        bool // foreign keys whose ID type is declared by another package of the module, which ships its own <T>ArrayToPQ helpers (C01 only: the target table is not created by the analysed file)
+	MaxTables         int
 }
 
 func (o *SQLOpts) gated(f string) bool {
@@ -144,6 +145,31 @@ func GenSQL(t *rapid.T, o *SQLOpts) *Spec {
 	for i, tb := range sg.tables {
 		sg.fillTable(i, tb)
 		sg.defs.Decls = append(sg.defs.Decls, tb.d)
+	}
+	if o.ForeignFileTables && rapid.IntRange(0, 2).Draw(t, "foreignFileTable") == 0 {
+		// a table struct declared in the sibling file (another model file of the package): the analysed file
+		// refers to it by tag, and possibly in an explicit REFERENCES directive
+		ext := sg.fresh(sg.pick("foreignFileTableName", []string{"Archive", "Vendor", "Region"}))
+		sg.other.Decls = append(sg.other.Decls, &Decl{Kind: KStruct, Name: ext, Fields: []*Field{{Name: "Id", Type: Basic("int64")}, {Name: "Label", Type: Basic("string")}}})
+		tb := sg.tables[rapid.IntRange(0, len(sg.tables)-1).Draw(t, "foreignFileTableFrom")]
+		has := false
+		for _, f := range tb.d.Fields {
+			if f.Name == "Id"+ext {
+				has = true
+			}
+		}
+		if !has {
+			f := &Field{Name: "Id" + ext, Type: Basic("int64"), Tag: fmt.Sprintf(`gomacro-sql-foreign:"%s"`, ext)}
+			if rapid.Bool().Draw(t, "foreignFileCascade") {
+				f.Tag += ` gomacro-sql-on-delete:"CASCADE"`
+			}
+			tb.d.Fields = append(tb.d.Fields, f)
+			if o.Directives && rapid.Bool().Draw(t, "foreignFileReferences") {
+				tb.d.Doc = append(tb.d.Doc, fmt.Sprintf("gomacro:SQL ADD FOREIGN KEY (%s) REFERENCES %s", f.Name, ext))
+				o.class("directive:references_struct_of_another_file")
+			}
+			o.class("sql:fk_to_table_of_another_file")
+		}
 	}
 	if o.Directives && rapid.IntRange(0, 3).Draw(t, "groupTables") == 0 && !o.gated("directive_in_grouped_decl") {
 		// grouped type declarations: the directive sits in the TypeSpec's own doc
